@@ -47,6 +47,7 @@ def _nodes(spec):
         yield from _nodes(spec['kid'])
 
 
+@sc.abandon_safe
 def check(case) -> Outcome:
     from vt.simrt.sim import Hang, Sim, StepBound, make_root_task
     from bqskit.runtime.message import RuntimeMessage as M
@@ -82,6 +83,8 @@ def check(case) -> Outcome:
               nclients=2 if mode == 'disconnect' else 1)
     sim.inject = sc.resolve_injections(case.get('inject', []),
                                        sorted(sim.workers))
+    sim.rinject = sc.resolve_rinjections(case.get('rinject', []),
+                                         sorted(sim.workers))
     try:
         comp = sim.compiler(0)
         task = make_root_task(spec)
@@ -250,6 +253,7 @@ def cases(draw, quick=True):
                                         'eager_recv'])),
         'client': {'mode': mode},
         'inject': draw(sc.injections),
+        'rinject': draw(sc.rinjections),
     }
     if mode != 'none':
         case['client']['at'] = draw(st.integers(0, 60))
